@@ -17,18 +17,29 @@
 (***************************************************************************)
 EXTENDS Integers, Sequences, FiniteSets, TLC, Json, IOUtils, SequencesExt
 
-CONSTANTS HasTrace, MaxReq, EvapSharesMdot
+CONSTANTS HasTrace, MaxReq, EvapSharesMdot,
+          BackendCached     \* mutant: the property back end is rebuilt only when the refrigerant name differs from the one
+                            \* recorded on the object -- and the name is recorded before the comparison (seeded change C18b)
 
-VARIABLES solved, basis, hist, obs, l
-vars == <<solved, basis, hist, obs, l>>
+Fluids == {"f1", "f2"}
+VARIABLES solved, basis, hist, obs, l,
+          fluid,            \* refrigerant named in the last solve() (what the object reports)
+          backend           \* refrigerant whose property back end (state object, critical constants) is loaded
+vars == <<solved, basis, hist, obs, l, fluid, backend>>
 
 Trace == IF HasTrace THEN JsonDeserialize(IOEnv.TRACE_FILE) ELSE <<>>
 
 (* ---- Part 1 ---- *)
 DInit == /\ solved = FALSE /\ basis = "none" /\ hist = <<>> /\ obs = [evap |-> "none", cond |-> "none"] /\ l = 1
-Solve == /\ ~HasTrace /\ Len(hist) < MaxReq
+         /\ fluid = "none" /\ backend = "none"
+(* solve(refrigerant = f): _validate_solve_inputs loads the back end for f on EVERY call, then the name is recorded;   *)
+(* the same object may be solved again for another refrigerant or operating point                                     *)
+Solve(f) ==
+         /\ ~HasTrace /\ Len(hist) < MaxReq
          /\ solved' = TRUE /\ basis' = "perkJ"            \* _get_metrics: m_dot = Q_cond / q_cond, q_cond in kJ/kg
-         /\ hist' = Append(hist, "solve") /\ obs' = [evap |-> "none", cond |-> "none"] /\ UNCHANGED l
+         /\ fluid' = f
+         /\ backend' = IF BackendCached /\ backend # "none" THEN backend ELSE f
+         /\ hist' = Append(hist, "solve:" \o f) /\ obs' = [evap |-> "none", cond |-> "none"] /\ UNCHANGED l
 Build(c, e) ==
   /\ ~HasTrace /\ solved /\ Len(hist) < MaxReq
   /\ LET b1 == IF c THEN "perJ" ELSE basis                 \* condenser branch re-bases the shared mass flow first
@@ -38,7 +49,8 @@ Build(c, e) ==
                              ELSE IF EvapSharesMdot THEN (IF b1 = "perJ" THEN "Qevap" ELSE "1000xQevap")
                              ELSE "Qevap"]
   /\ hist' = Append(hist, IF c /\ e THEN "both" ELSE IF c THEN "cond" ELSE "evap")
-  /\ UNCHANGED <<solved, l>>
+  /\ UNCHANGED <<solved, l, fluid, backend>>
+C18_BackendIsRequested == solved => backend = fluid          \* state points are those of the refrigerant asked for
 C18_OrderIndependent == obs.evap \in {"none", "Qevap"} /\ obs.cond \in {"none", "Qcond"}
 
 (* ---- Part 2 ---- *)
@@ -70,14 +82,18 @@ EvFails(e) ==
              /\ (e.sets[k].hot # <<>> /\ e.sets[m].hot # <<>> => e.sets[k].hot = e.sets[m].hot /\ e.sets[k].hotT = e.sets[m].hotT)
              /\ (e.sets[k].cold # <<>> /\ e.sets[m].cold # <<>> => e.sets[k].cold = e.sets[m].cold /\ e.sets[k].coldT = e.sets[m].coldT)
         THEN {} ELSE {"C18.order_independent"})
+  (* the same point solved on an object that was solved before for another refrigerant and operating point *)
+  \cup (IF e.reuse.h = e.h /\ e.reuse.s = e.s /\ e.reuse.p = e.p /\ e.reuse.Qc = e.Qc /\ e.reuse.Qe = e.Qe /\ e.reuse.W = e.W
+        THEN {} ELSE {"C18.independent_of_earlier_solves"})
 
 TInit == /\ solved = TRUE /\ basis = "trace" /\ hist = <<>> /\ obs = [evap |-> "none", cond |-> "none"] /\ l = 1
+         /\ fluid = "trace" /\ backend = "trace"
 TStep == /\ HasTrace /\ l <= Len(Trace)
          /\ LET f == EvFails(Trace[l]) IN f = {} \/ PrintT(<<"VERDICT", ToJson([id |-> Trace[l].id, fails |-> SetToSeq(f)])>>)
-         /\ l' = l + 1 /\ UNCHANGED <<solved, basis, hist, obs>>
+         /\ l' = l + 1 /\ UNCHANGED <<solved, basis, hist, obs, fluid, backend>>
 
 Init == IF HasTrace THEN TInit ELSE DInit
-Next == Solve \/ (\E c, e \in BOOLEAN : (c \/ e) /\ Build(c, e)) \/ TStep
+Next == (\E f \in Fluids : Solve(f)) \/ (\E c, e \in BOOLEAN : (c \/ e) /\ Build(c, e)) \/ TStep
 Spec == Init /\ [][Next]_vars
 TraceAccepted == ~HasTrace \/ TLCGet("stats").diameter - 1 = Len(Trace)
 =============================================================================
